@@ -123,6 +123,50 @@ CHECKS = {
             "left open (property says 'naming the row'); extra columns in pattern note lines tolerated.",
             "exhaustive single-fault enumeration over files + bounded exhaustive enumeration of well-formed files "
             "against an independent parser model"),
+    "C10": (MC, "DESIGN.md §5 C10",
+            "All grammar-derivable chord labels to depth 1 (thorough: depth 2 on 12 root spellings), all strings "
+            "up to length 4 (5) over a 24-character alphabet, all single-edit mutants of a 3000-label core, each "
+            "under the flag settings, are pushed through validate_chord_label / split / join / encode and compared "
+            "with an independent recursive-descent recogniser + encoder; the set-iteration order inside "
+            "chord.split/encode is scheduled through all permutations (seam on the name `set`).",
+            "Independent model written from Harte's grammar and the module docstring; Harte's mixed modifiers "
+            "(C#b) treated as invalid as the library documents.",
+            "bounded exhaustive enumeration of strings / derivations against an independent recogniser-encoder "
+            "model, plus scheduler enumeration of set-iteration orders"),
+    "C11": (MC, "DESIGN.md §5 C11",
+            "All pairs of representatives of the model-computed (bitmap, bass) encoding classes (179 quick, 1455 "
+            "thorough classes; reference roots C and G#, all 12 estimate roots, N, X) through all 12 comparison "
+            "functions; lattice implications, reference-only -1, self-comparison, documented vocabularies from the "
+            "model; an abstraction-conformance pass checks that labels of one class are indistinguishable.",
+            "Class abstraction is checked, not assumed (79k labels against a panel); the root restriction relies "
+            "on C09's joint-transposition check.",
+            "explicit-state enumeration of encoding-class pairs with abstraction conformance replay"),
+    "C16": (MC, "DESIGN.md §5 C16",
+            "Every ordered pair of labelled segmentations (all compositions of 5 (6) cells, restricted-growth labels "
+            "over <=3 names, extra lattices for partial last frames, the 0.1 s grid, case-colliding names and 64-100 "
+            "frame shapes) x frame sizes x betas is run through the six labelling metrics and compared with "
+            "contingency-table formulas in exact rationals / fsum; identities (vmeasure == nce(marginal), MI "
+            "symmetric, V harmonic mean, ARI=1 on equal partitions, case-insensitivity) on every state.",
+            "Textbook formulas; keys that are 0/0 in the textbook formula are skipped and counted (C01/C02 own them); "
+            "model bound to the 10 repository fixtures.",
+            "bounded exhaustive enumeration against an independent reference model (conformance)"),
+    "C18": (MC, "DESIGN.md §5 C18",
+            "Every multipitch state of two frequency families (all subsets per frame, <=2 (3) frames) x every "
+            "estimate time-base variant (shifted below / at / above half a hop, fewer / more frames, before, after, "
+            "empty) x windows: accounting identities, per-frame true-positive bounds, scores recomputed from counts, "
+            "and resample_multipitch against a nearest-stamp model on all small stamp sets.",
+            "Pitch distances kept >= 0.0099 semitone from every window (asserted); ties follow interp1d('nearest').",
+            "bounded exhaustive enumeration with state invariants and a resampling reference model"),
+    "C19": (EX, "DESIGN.md §5 C19",
+            "A finite configuration alphabet (api x nsrc x nchan x length x mixing matrix x distortion over a "
+            "deterministic signal bank) is enumerated completely: decomposition sum, criteria from the published "
+            "definitions, scale invariance edges, permutation optimality by explicit re-evaluation, perfect "
+            "estimate, framewise == per-window result, silent windows NaN under two np.empty poisons, arity on "
+            "empty inputs for all entry points.",
+            "Continuum inputs: coverage is over the stated configuration alphabet only; image SDR/ISR scale "
+            "clause restricted as the metric's definition requires.",
+            "complete enumeration of a configuration alphabet with algebraic oracles and an environment "
+            "(np.empty) seam"),
 }
 
 NOT_YET = {}
